@@ -653,6 +653,7 @@ fn m_world() -> World {
         mutation_root: Some(1),
         subscription_root: None,
         faults: Default::default(),
+        plain_leaf_lists: false,
     }
 }
 
